@@ -254,6 +254,21 @@ def call_interval(t, iv, b, depth):
             return (cap, cap)
     if callee == "core::char::methods::<impl char>::len_utf8":
         return (1, 4)
+    m_ = re.fullmatch(r"<([ui](?:8|16|32|64|128|size)) as core::ops::(Add|Sub|Mul)<&\1>>::(add|sub|mul)", callee)
+    if m_ and len(args) == 2:
+        x = iv.interval(args[0], b, depth + 1)
+        yv = args[1]
+        from terms import set_ty as _st
+        yv = _st(mk("memval", yv.args[0]) if yv.op == "ref" else mk("memval", mk("mem", yv)), ty_of(args[0]))
+        y = iv.interval(yv, b, depth + 1)
+        if x is not None and y is not None:
+            op = m_.group(2)
+            r = (x[0] + y[0], x[1] + y[1]) if op == "Add" else ((x[0] - y[1], x[1] - y[0]) if op == "Sub" else (min(x[0] * y[0], x[1] * y[1]), max(x[0] * y[0], x[1] * y[1])))
+            # the call returns only when the checked operation did not overflow
+            if rng is not None:
+                r = (max(r[0], rng[0]), min(r[1], rng[1]))
+            return r
+        return rng
     if re.fullmatch(r"core::num::<impl u(8|16|32|64|128|size)>::from_(be|le)_bytes", callee) and args and args[0].op == "array":
         bs = list(args[0].args[0])
         if callee.endswith("from_be_bytes"):
@@ -396,9 +411,83 @@ def vec_pushed_values(vec_local, fa):
     return out
 
 
+_VECELEM = {}
+
+
+def fn_vec_elem_interval(prog, path):
+    """Interval of the elements of the integer vector a crate function returns (summary over everything it pushes), cached.
+    Forms: a local ArrayVec created empty and filled by push; `(lo..=hi | lo..hi).filter(..).collect()`."""
+    if path in _VECELEM:
+        return _VECELEM[path]
+    _VECELEM[path] = None
+    f = prog.fn(path)
+    if f is None:
+        return None
+    from terms import FA
+    from intervals import Intervals, join
+    fa = FA(f, prog)
+    iv = Intervals(fa, prog)
+    rets = f.return_blocks()
+    if len(rets) != 1:
+        return None
+    rv = fa.end_val(0, rets[0])
+    acc = None
+    if rv.op == "call" and rv.args[0].endswith("Iterator::collect") and rv.args[1]:
+        x = rv.args[1][0]
+        while x.op == "call" and x.args[0] in ("core::iter::Iterator::filter", INTO_ITER) and x.args[1]:
+            x = x.args[1][0]
+        if x.op == "call" and x.args[0] == "core::ops::RangeInclusive::<Idx>::new" and all(is_const(a) for a in x.args[1]):
+            acc = (const_val(x.args[1][0]), const_val(x.args[1][1]))
+        elif x.op == "agg" and x.args[0] == "core::ops::Range" and all(is_const(a) for a in x.args[3]):
+            acc = (const_val(x.args[3][0]), const_val(x.args[3][1]) - 1)
+    else:
+        # returned local vector
+        t = f.term(rets[0])
+        L = None
+        for b_ in sorted(f.reachable()):
+            for st in f.blocks[b_]["stmts"]:
+                if st["k"] == "assign" and st["place"] == {"local": 0, "proj": []} and st["rv"]["k"] == "use" and st["rv"]["op"]["k"] in ("move", "copy") \
+                        and not st["rv"]["op"]["place"]["proj"]:
+                    L = st["rv"]["op"]["place"]["local"]
+        if L is not None:
+            pushed = vec_pushed_values(L, fa)
+            if pushed:
+                acc = (1, 0)
+                for pb, pv in pushed:
+                    i = iv.interval(pv, pb)
+                    if i is None:
+                        return None
+                    acc = join(acc, i)
+    _VECELEM[path] = acc
+    return acc
+
+
 def projection_interval(t, iv, b, depth):
     """Intervals of projections of call results: Option/Result payloads of modelled calls, iterator items."""
     fa = iv.fa
+    # element of a by-value iteration over the vector returned by a crate function (optionally enumerated)
+    if t.op == "field" and iv.prog is not None:
+        x = t
+        k = None
+        if x.args[0].op == "field" and x.args[0].args[1] == 0 and x.args[0].args[0].op == "downcast":
+            k = x.args[1]
+            x = x.args[0]
+        if x.op == "field" and x.args[1] == 0 and x.args[0].op == "downcast" and x.args[0].args[1] == 1 and x.args[0].args[0].op == "call":
+            c = x.args[0].args[0]
+            cn = c.args[0]
+            if cn in ("<tinyvec::ArrayVecIterator<A> as core::iter::Iterator>::next", "<core::iter::Enumerate<I> as core::iter::Iterator>::next") and len(c.args) >= 4:
+                src = iterator_source(c, fa)
+                if src is not None:
+                    y = src[0]
+                    chain = []
+                    while y.op == "call" and y.args[1] and y.args[0] in (INTO_ITER, "core::iter::Iterator::enumerate", "<tinyvec::ArrayVec<A> as core::iter::IntoIterator>::into_iter"):
+                        chain.append(y.args[0])
+                        y = y.args[1][0]
+                    enum = "core::iter::Iterator::enumerate" in chain
+                    if y.op == "call" and y.args[0] in iv.prog.fns and ((enum and k == 1) or (not enum and k is None and cn.startswith("<tinyvec"))):
+                        r = fn_vec_elem_interval(iv.prog, y.args[0])
+                        if r is not None:
+                            return r
     # element of a local array built by stores: join of everything stored (array smashing)
     if t.op == "index":
         vals = smash_values(t.args[0], fa)
@@ -492,6 +581,13 @@ def projection_interval(t, iv, b, depth):
                         cap = capacity_of_type(obj_type(v.args[1][0]))
                         if cap is not None and cap >= 1:
                             return (0, cap - 1)
+                    # by-value iteration over a vector value (e.g. the result of a crate function): capacity of its type
+                    w = v
+                    while w.op == "call" and w.args[1] and w.args[0] in (INTO_ITER, "<tinyvec::ArrayVec<A> as core::iter::IntoIterator>::into_iter"):
+                        w = w.args[1][0]
+                    cap = capacity_of_type(ty_of(w)) if ty_of(w) is not None else None
+                    if cap is not None and cap >= 1:
+                        return (0, cap - 1)
                 return (0, ISIZE_MAX - 1)
     return None
 
